@@ -564,7 +564,10 @@ TerminationChecks ==
   /\ pend' = [a \in 1..Len(beh) |-> <<>>]
   /\ UNCHANGED <<cid, t, beh, top, nexec, ntraj, flag, ws, pick>>
 
-Sched == C.sched[(t % Len(C.sched)) + 1]      \* the permutation the simulator returns for this step
+\* the order the simulator returns for this step: the case's permutation for the step (entries of objects not
+\* created yet are skipped), then any objects beyond it (created at run time), in creation order
+SchedRow == C.sched[(t % Len(C.sched)) + 1]
+Sched == SchedRow \o [j \in 1..(IF Len(beh) > Len(SchedRow) THEN Len(beh) - Len(SchedRow) ELSE 0) |-> Len(SchedRow) + j]
 
 (* What follows the resumption of agent a's behaviour (coroutine c after the resume): a rejection; a  *)
 (* pending random pick; `terminate simulation`, or `terminate` by an agent of the top-level scenario:  *)
